@@ -16,7 +16,8 @@ for name in sorted(res):
 caught = sum(1 for r in res.values() if r.get("status") == "caught")
 rows.append("")
 rows.append("%d of %d mutants caught by at least one owning check (quick tier). A mutant listed for several properties is run against each of them." % (caught, sum(1 for r in res.values() if "checks" in r)))
-s = re.sub(r"<!-- BEGIN GENERATED MUTANTS -->.*<!-- END GENERATED MUTANTS -->", "<!-- BEGIN GENERATED MUTANTS -->\n" + "\n".join(rows) + "\n<!-- END GENERATED MUTANTS -->", s, flags=re.S)
+_m = "<!-- BEGIN GENERATED MUTANTS -->\n" + "\n".join(rows) + "\n<!-- END GENERATED MUTANTS -->"
+s = re.sub(r"<!-- BEGIN GENERATED MUTANTS -->.*<!-- END GENERATED MUTANTS -->", lambda _x: _m, s, flags=re.S)
 
 rows = ["| seeded change | property | confirmed (demo passes without / fails with the change, repo tests pass) | caught by | what it needs to manifest |", "|---|---|---|---|---|"]
 for mp in sorted(glob.glob(os.path.join(ROOT, "seeded", "*", "meta.json"))):
@@ -24,6 +25,7 @@ for mp in sorted(glob.glob(os.path.join(ROOT, "seeded", "*", "meta.json"))):
     v = m.get("verification", {})
     cs = ", ".join("%s (%s, exit %s, %ss)" % (k, c.get("tier"), c.get("exit"), c.get("wall_s")) for k, c in sorted(v.get("checks", {}).items()))
     rows.append("| seeded/%s | %s | %s | %s | %s |" % (os.path.basename(os.path.dirname(mp)), m.get("property"), "yes" if v.get("confirmed") else "NO", cs if v.get("caught_by") else "**missed**: " + cs, str(m.get("needs_to_manifest", "")).replace("|", "/").replace("\n", " ")[:300]))
-s = re.sub(r"<!-- BEGIN GENERATED SEEDED -->.*<!-- END GENERATED SEEDED -->", "<!-- BEGIN GENERATED SEEDED -->\n" + "\n".join(rows) + "\n<!-- END GENERATED SEEDED -->", s, flags=re.S)
+_s = "<!-- BEGIN GENERATED SEEDED -->\n" + "\n".join(rows) + "\n<!-- END GENERATED SEEDED -->"
+s = re.sub(r"<!-- BEGIN GENERATED SEEDED -->.*<!-- END GENERATED SEEDED -->", lambda _x: _s, s, flags=re.S)
 open(p, "w").write(s)
 print("DESIGN.md tables regenerated")
